@@ -1,15 +1,16 @@
 """C03 - user code runs exactly when an active input ticked and required inputs are valid."""
 import engine_common as ec
 import engine_plugin as ep
+import c03activity as act
 
 ID = "C03"
-LEAN_MODULES = ['HgVerif.Props.C03', 'HgVerif.Props.C03Activation', 'HgVerif.Props.C03Flow', 'HgVerif.Model.Engine', 'HgVerif.Model.Extracted']
-THEOREMS = ['HgVerif.Engine.user_code_gated', 'HgVerif.Engine.gate_closed_iff', 'HgVerif.Engine.unstarted_never_runs', 'HgVerif.Engine.notify_only_subscribers', 'HgVerif.Sched.evaluated_iff_due_or_notified', 'HgVerif.Sched.scanR_evaluated', 'HgVerif.Flow.scanFrom_eq_denSeq', 'HgVerif.Flow.denSeq_ev_iff', 'HgVerif.Flow.activation_exact', 'HgVerif.Flow.writers_exact']
-CXX_TARGETS = ['hgv_engine']
+LEAN_MODULES = ['HgVerif.Props.C03', 'HgVerif.Props.C03Activation', 'HgVerif.Props.C03Flow', 'HgVerif.Model.Engine', 'HgVerif.Model.Extracted'] + list(act.LEAN_MODULES)
+THEOREMS = ['HgVerif.Engine.user_code_gated', 'HgVerif.Engine.gate_closed_iff', 'HgVerif.Engine.unstarted_never_runs', 'HgVerif.Engine.notify_only_subscribers', 'HgVerif.Sched.evaluated_iff_due_or_notified', 'HgVerif.Sched.scanR_evaluated', 'HgVerif.Flow.scanFrom_eq_denSeq', 'HgVerif.Flow.denSeq_ev_iff', 'HgVerif.Flow.activation_exact', 'HgVerif.Flow.writers_exact'] + list(act.THEOREMS)
+CXX_TARGETS = ['hgv_engine'] + list(act.CXX_TARGETS)
 USES_EXTRACT = True
-RULE = 'random graphs over add/acc/pass/gate (explicit Valid/Unchecked selectors, passive marks), sources with independent tick patterns (becoming valid at different times, ticking together, going quiet), script nodes with inputs; every user-code run logs time and valid/modified/value of each input; non-trivial = >=2 cycles with user code; distinct by program text'
-TRUSTED = ['subscription plumbing of target_link_ops.cpp is not modelled: covered by correspondence only']
-ASSUMPTIONS = ['all ports are TS[int]']
+RULE = 'random graphs over add/acc/pass/gate (explicit Valid/Unchecked selectors, passive marks), sources with independent tick patterns (becoming valid at different times, ticking together, going quiet), script nodes with inputs; every user-code run logs time and valid/modified/value of each input; non-trivial = >=2 cycles with user code; distinct by program text' + ' ' + act.RULE
+TRUSTED = ['subscription plumbing of target_link_ops.cpp is not modelled: covered by correspondence only'] + list(act.TRUSTED)
+ASSUMPTIONS = ['all ports are TS[int]'] + list(act.ASSUMPTIONS)
 TECHNIQUE = "Lean 4 proof about the engine model's activation/readiness gates + differential correspondence + dataflow reference monitor"
 LEVEL_TEXT = 'Kernel-checked: in every completed cycle a node is evaluated IFF its slot was due when the cycle began (own wake-up) or an earlier-evaluated node scheduled it for this cycle (notification), for arbitrary node behaviours under the caller discipline; for every flat dataflow with arbitrary node functions and any topological rank (activation_exact): a node is evaluated in a cycle IFF it was due or one of its ACTIVE producers was evaluated in this cycle and wrote - passive producers and silent evaluations never activate it - and the writers are exactly the fired nodes whose code ticked; on the engine model: user code of a node runs only if the node is started and every input not marked Unchecked is valid; an output write schedules exactly the started nodes subscribed to it (passive inputs never subscribe). The model is compared trace-for-trace with the runtime and every implementation trace is checked against a dataflow reading that recomputes, per cycle, which nodes must run and with which input values and flags.'
 LEVEL_NOTE = "Trusted: Lean kernel; engine model tied by correspondence; Python monitor. The full 'runs_iff' over arbitrary programs is carried by the monitor; the theorems cover the gates."
@@ -18,12 +19,32 @@ LEVEL_NOTE = "Trusted: Lean kernel; engine model tied by correspondence; Python 
 def streams(rng, tier, seed):
     n = 200 if tier == "quick" else 5000
     progs = [ec.gen_flat(rng, sched=(i % 4 == 0)) for i in range(n)]
-    return [ec.engine_stream("engine-activation", progs)]
+    return [ec.engine_stream("engine-activation", progs)] + act.streams(rng, tier, seed)
 
 
-monitor = ep.monitor_for(ID)
-features = ep.features
-alarm_filter = ep.alarm_filter
-nontrivial = ep.nontrivial
+_mon = ep.monitor_for(ID)
 
-valid_case = ep.valid_case
+
+def monitor(stream, case, out):
+    return act.monitor(stream, case, out) if stream.startswith("activity-") else _mon(stream, case, out)
+
+
+def features(stream, case, out):
+    return act.features(stream, case, out) if stream.startswith("activity-") else ep.features(stream, case, out)
+
+
+def alarm_filter(stream, case, impl_out, model_out):
+    if stream.startswith("activity-"):
+        return True, []
+    return ep.alarm_filter(stream, case, impl_out, model_out)
+
+
+def nontrivial(stream, case, out):
+    return act.nontrivial(stream, case, out) if stream.startswith("activity-") else ep.nontrivial(stream, case, out)
+
+
+def valid_case(stream, case, impl_out, model_out):
+    if stream.startswith("activity-"):
+        f = getattr(act, "valid_case", None)
+        return f(stream, case, impl_out, model_out) if f else True
+    return ep.valid_case(stream, case, impl_out, model_out)
